@@ -26,10 +26,10 @@ Record obs := mkObs
     oqpark : bool     (* a flusher is parked before shallQuit *) }.
 
 Record case := mkCase
-  { cmaxw : Z; cinterval : Z; cbad : list task; cpatched : bool; cdrained : bool; cgateq : bool; cn : nat;
+  { cmaxw : Z; cinterval : Z; cbad : list task; cdrained : bool; cgateq : bool; cn : nat;
     csteps : list (act * obs) }.
 
-Definition cfg_of (c : case) : config := mkCfg (cmaxw c) (cinterval c) (cbad c) (cpatched c).
+Definition cfg_of (c : case) : config := mkCfg (cmaxw c) (cinterval c) (cbad c).
 
 (* ---------- serialisation (state equality for de-duplication) ---------- *)
 Definition zb (b : bool) : Z := if b then 1 else 0.
